@@ -138,6 +138,31 @@ Section Pagination.
 
   Definition full_scan (fuel : nat) (o0 : order) (lim : option N) : scan_result :=
     scan fuel o0 lim None.
+
+  (* The same scan computed without going back through the token and the
+     collection on every request: the items not yet delivered are threaded
+     along instead of being recomputed from the decoded marker.  Proved equal
+     to [full_scan] (PaginationProofs.fast_scan_is_scan) for sorted
+     collections under the envelope contract; used to evaluate scans of tens of
+     thousands of pages, where [scan] (one pass over the whole collection per
+     page) is too slow. *)
+  Fixpoint chunk_scan (fuel : nat) (o : order) (lim : option N) (rest : list N) : scan_result :=
+    match fuel with
+    | O => OutOfFuel []
+    | S f =>
+        let limit := page_limit lim max default in
+        match results_page (takeN limit rest) o (fun k o => (o, k)) with
+        | Err e => Failed e []
+        | Ok p =>
+            match next_page p with
+            | None => Done [p]
+            | Some _ => cons_pages p (chunk_scan f o lim (dropN limit rest))
+            end
+        end
+    end.
+
+  Definition fast_scan (fuel : nat) (o : order) (lim : option N) : scan_result :=
+    chunk_scan fuel o lim (view o coll).
 End Pagination.
 
 (* number of requests of a complete scan: ceil(n / eff) non-empty pages and
